@@ -128,6 +128,7 @@ class PathCtx:
                 self._add_axiom(a)
 
     def _add_axiom(self, a):
+        self.wit = None   # the witness model predates this axiom
         self.solver.add(a)
         if z3.is_quantifier(a):
             self.quant_ids.add(a.get_id())
